@@ -354,14 +354,24 @@ func schedule(c *kit.Ctx, id string, i int) {
 	}
 	lastSig := map[int]sigRec{} // BLS signing is deterministic: signing the same payload again reproduces the earlier signature bytes
 	nev := 20 + r.Intn(50)
+	adv := 10
+	if i%5 == 4 {
+		// long lives: the voter keeps params.MaxVoteCacheCount (4) vote wrappers and recycles the oldest
+		// for a new (round, index); only a schedule with many more contexts than that reuses wrappers
+		// (the same favourite block keeps collecting votes of every kind in every index)
+		nev = 150 + r.Intn(150)
+		adv = 25
+	}
+	ctxs := 1
 	kinds := map[string]int{}
 	for e := 0; e < nev && !w.bad; e++ {
-		if x := r.Intn(100); x < 10 {
+		if x := r.Intn(100); x < adv {
 			if si+1 < len(steps) {
 				si++
 			} else {
 				idx++
 				si = 0
+				ctxs++
 				w.m.reset(round, idx)
 			}
 			ctx()
@@ -488,6 +498,13 @@ func schedule(c *kit.Ctx, id string, i int) {
 	c.Count("equivocations", w.m.equiv)
 	c.Count("boundary_emissions", boundary)
 	c.Count("deliveries", nev)
+	if ctxs > 4 {
+		c.Count("schedules_recycling_vote_wrappers", 1)
+		c.Count("contexts_beyond_the_wrapper_cache", ctxs-4)
+		if w.cert {
+			c.Count("cert_round_schedules_recycling_vote_wrappers", 1)
+		}
+	}
 	for k, n := range kinds {
 		c.Count("delivered_"+k, n)
 	}
